@@ -575,6 +575,37 @@ fn run_kernel(f: &[&str]) -> String {
             }
             Ok(format!("ok:{}", v))
         })),
+        // k dbgwin L N → ok:<before>;<line>;<after> : the line numbers `render_debug_info` prints around an
+        // error on line L of an N-line template
+        "dbgwin" => {
+            let l: usize = f[1].parse().unwrap_or(1);
+            let n: usize = f[2].parse().unwrap_or(1);
+            let src = (1..=n).map(|i| if i == l { "{{ ? }}" } else { "x" }).collect::<Vec<_>>().join("\n");
+            match guarded(|| {
+                let mut env = make_env(None);
+                env.add_template_owned("case.txt".to_string(), src).err().map(|e| format!("{}", e.display_debug_info()))
+            }) {
+                Err(_) => format!("panic:{}", last_panic()),
+                Ok(None) => "ok:none".to_string(),
+                Ok(Some(text)) => {
+                    let (mut pre, mut cur, mut post) = (vec![], vec![], vec![]);
+                    for line in text.lines() {
+                        let mut it = line.trim_start().splitn(3, ' ');
+                        if let (Some(num), Some(mark)) = (it.next(), it.next()) {
+                            if let Ok(k) = num.parse::<usize>() {
+                                match mark {
+                                    ">" => cur.push(k.to_string()),
+                                    "|" if cur.is_empty() => pre.push(k.to_string()),
+                                    "|" => post.push(k.to_string()),
+                                    _ => {}
+                                }
+                            }
+                        }
+                    }
+                    format!("ok:{};{};{}", pre.join(","), cur.join(","), post.join(","))
+                }
+            }
+        }
         // k reprstr CP,CP,… → ok:<bytes of the repr> : `{:?}` of a string value (python_string_debug_fmt)
         "reprstr" => finish(guarded(|| {
             let st: String = if f[1] == "_" { String::new() } else { f[1].split(',').filter_map(|t| t.parse::<u32>().ok().and_then(char::from_u32)).collect() };
@@ -1058,7 +1089,8 @@ fn place(pl: &str, expr: &str) -> String {
 }
 
 fn depth_source(kind: &str, n: usize) -> (String, bool) {
-    // (source, is_template)
+    // (source, is_template); a suffix `@html` / `@json` selects the auto-escape mode the probe is rendered under
+    let kind = kind.split('@').next().unwrap_or(kind);
     let rep = |s: &str| s.repeat(n);
     // stk:<chain>:<group>:<placement> n  — n chains of (limit - 1) items stacked through a grouping
     // primary: the nesting accounting must refuse it (the longest path has n·(limit-1) loop-built
@@ -1347,8 +1379,14 @@ fn run_depth(kind: &str, n: usize) -> String {
                 let wide: String = (0..n).map(|i| format!("{{% macro m{}() %}}{}{{% endmacro %}}", i, i)).collect();
                 env.add_template_owned("wide.txt".to_string(), wide)?;
             }
-            env.add_template_owned("case.txt".to_string(), src)?;
-            let out = env.get_template("case.txt")?.render(ctx_zoo(0))?;
+            // the auto-escape mode of the probe: `@html` / `@json` (the output path differs per mode)
+            let name = match kind.split_once('@').map(|x| x.1) {
+                Some("html") => "case.html",
+                Some("json") => "case.json",
+                _ => "case.txt",
+            };
+            env.add_template_owned(name.to_string(), src)?;
+            let out = env.get_template(name)?.render(ctx_zoo(0))?;
             Ok(format!("ok:{}", out.len()))
         }))
     } else {
@@ -2542,6 +2580,14 @@ fn gen_intop_cases(out: &mut Vec<String>, thorough: bool) {
 
 fn gen_kernel_cases(out: &mut Vec<String>, thorough: bool) {
     gen_intop_cases(out, thorough);
+    // the window of source lines in the debug output: every error line of short templates, both ends of a long one
+    for n in [1usize, 2, 3, 4, 5, 6, 7, 8, 9, 50] {
+        for l in 1..=n {
+            if n < 10 || l <= 5 || l + 5 >= n {
+                out.push(format!("k dbgwin {} {}", l, n));
+            }
+        }
+    }
     // strings over an alphabet of every escaping class and UTF-8 width: all of length <= 3 (thorough: 4)
     {
         let alpha: [u32; 16] = [97, 39, 34, 92, 10, 9, 0, 127, 128, 133, 159, 160, 233, 8364, 0x1D11E, 0x2028];
@@ -2896,37 +2942,44 @@ fn cfg_number(ub: usize, ws: usize, syn: usize, misc: usize) -> usize {
     ub % 4 + 4 * (ws % 8 + 8 * (syn % NSYN + NSYN * (misc % 4)))
 }
 
+/// whitespace of every UTF-8 width (and line breaks of every kind)
+const WS_KINDS: &[&str] = &[" ", "\n", "\r\n", "\r", "\t", "\u{a0}", "\u{85}", "\u{2028}", "\u{2029}", "\u{3000}", "\u{b}", "\u{c}", "\u{1680}", " \u{a0}\n", "\u{2028}\n"];
+
+/// one kind of whitespace behind every end delimiter (`which` != 2) and in front of every start delimiter
+/// (`which` != 1) of syntax `syn`: what trim_blocks / lstrip_blocks / the whitespace-control characters act on
+fn ws_around(s: &str, syn: usize, ws: &str, which: usize) -> String {
+    let (d, _, _) = syntax_parts(syn);
+    let mut t = String::with_capacity(s.len() * 2);
+    let mut i = 0;
+    'outer: while i < s.len() {
+        for (k, delim) in d.iter().enumerate() {
+            if s[i..].starts_with(delim) {
+                if k % 2 == 0 && which != 1 {
+                    t.push_str(ws);
+                }
+                t.push_str(delim);
+                if k % 2 == 1 && which != 2 {
+                    t.push_str(ws);
+                }
+                i += delim.len();
+                continue 'outer;
+            }
+        }
+        let c = s[i..].chars().next().unwrap();
+        t.push(c);
+        i += c.len_utf8();
+    }
+    t
+}
+
 /// byte-level damage with the tokens of syntax configuration `syn`: its delimiters (with and without
 /// the whitespace-control characters), its line statement / line comment prefixes at line starts and in
 /// the middle of lines, pieces of its delimiters
 fn mutate_in_syntax(rng: &mut Rng, mut s: String, syn: usize) -> String {
     let (d, ls, lc) = syntax_parts(syn);
     if rng.chance(1, 4) {
-        // one kind of whitespace (of any width) behind every end delimiter and in front of every start
-        // delimiter: what trim_blocks / lstrip_blocks / the whitespace-control characters act on
-        let ws = pick_s(rng, &[" ", "\n", "\r\n", "\r", "\t", "\u{a0}", "\u{85}", "\u{2028}", "\u{2029}", "\u{3000}", "\u{b}", "\u{c}", "\u{1680}", " \u{a0}\n", "\u{2028}\n"]);
-        let which = rng.below(3);
-        let mut t = String::with_capacity(s.len() * 2);
-        let mut i = 0;
-        'outer: while i < s.len() {
-            for (k, delim) in d.iter().enumerate() {
-                if s[i..].starts_with(delim) {
-                    if k % 2 == 0 && which != 1 {
-                        t.push_str(ws);
-                    }
-                    t.push_str(delim);
-                    if k % 2 == 1 && which != 2 {
-                        t.push_str(ws);
-                    }
-                    i += delim.len();
-                    continue 'outer;
-                }
-            }
-            let c = s[i..].chars().next().unwrap();
-            t.push(c);
-            i += c.len_utf8();
-        }
-        s = t;
+        let ws = pick_s(rng, WS_KINDS);
+        s = ws_around(&s, syn, ws, rng.below(3) as usize);
     }
     let rounds = rng.below(3);
     for _ in 0..rounds {
@@ -3029,6 +3082,18 @@ fn gen_cases(thorough: bool) -> Vec<String> {
         }
         ks.sort();
         ks.dedup();
+        // the value probes under the other auto-escape modes too (each mode has its own output path)
+        for kind in ["intval", "loopindex", "longstr", "vars", "bigint"] {
+            for esc in ["html", "json"] {
+                for &k in &ks {
+                    if k <= 2100 || (thorough && k <= 70_000) {
+                        cases.push(format!("d w:{}@{} {}", kind, esc, k));
+                    }
+                }
+                cases.push(format!("d w:{}@{} 65535", kind, esc));
+                cases.push(format!("d w:{}@{} 65536", kind, esc));
+            }
+        }
         for kind in WIDTH_KINDS {
             for &k in &ks {
                 if k > 70_000 || (k > 2100 && *kind == "blocks") || (k > 2100 && !thorough && !matches!(*kind, "vars" | "lines" | "longline" | "longname" | "intval")) {
@@ -3119,6 +3184,15 @@ fn gen_cases(thorough: bool) -> Vec<String> {
             cases.push(format!("t mut:seedcfg {} {}", i % 4 + 4 * cfg, hex(translate_syntax(s, syn).as_bytes())));
         }
         cases.push(format!("t mut:seedcfg {} {}", i % 4 + 4 * cfg_number(i % 4, 1 + i % 7, 0, i % 4), hex(s.as_bytes())));
+        // every seed x every kind of whitespace around its delimiters, the whitespace switches and syntaxes rotating
+        if s.len() <= 2000 {
+            for (w, ws) in WS_KINDS.iter().enumerate() {
+                let syn = if (i + w) % 3 == 0 { (i + w) % NSYN } else { 0 };
+                let cfg = cfg_number(0, 1 + (i + w) % 7, syn, 0);
+                let src = ws_around(&translate_syntax(s, syn), syn, ws, (i / 7 + w) % 3);
+                cases.push(format!("t mut:seedws {} {}", i % 2 + 4 * cfg, hex(src.as_bytes())));
+            }
+        }
     }
     let n_mut = if thorough { 100_000 } else { 15_000 };
     for i in 0..n_mut {
